@@ -909,6 +909,13 @@ func (fv *FV) modTarget(env *Env, e SExpr) []modTarget {
 				out = append(out, modTarget{key: key, ref: p.S})
 			}
 			return out
+		case "every":
+			// every(p.f): field f of every object (the contract states what stays unchanged explicitly)
+			ts := fv.modTarget(env, x.Args[0])
+			for i := range ts {
+				ts[i].ref, ts[i].lo, ts[i].hi = "", "", ""
+			}
+			return ts
 		case "calls":
 			var out []modTarget
 			out = append(out, modTarget{key: fv.callsComp("len", "")}, modTarget{key: fv.callsComp("ret", "")})
